@@ -39,10 +39,10 @@ SHARD_TIMEOUT = {'quick': 900, 'thorough': 3400}
 MIN_HITS = {
     'quick': {**{f'rounds:{s}': 16 for s in SYSTEMS}, **{f'cont:{s}': 12 for s in SYSTEMS},
               **{f'hidden:{s}': 6 for s in SYSTEMS}, 'mon:determinism': 400, 'mon:purity': 600, 'mon:serial': 700,
-              'mon:hidden': 100, 'mon:aggkey': 50, 'repeat-participation': 120},
+              'mon:hidden': 100, 'mon:aggkey': 50, 'repeat-participation': 120, 'xproc': 6, 'xproc:agg_rotated': 1},
     'thorough': {**{f'rounds:{s}': 250 for s in SYSTEMS}, **{f'cont:{s}': 300 for s in SYSTEMS},
                  **{f'hidden:{s}': 150 for s in SYSTEMS}, 'mon:determinism': 6000, 'mon:purity': 9000, 'mon:serial': 10000,
-                 'mon:hidden': 1800, 'mon:aggkey': 800, 'repeat-participation': 2000},
+                 'mon:hidden': 1800, 'mon:aggkey': 800, 'repeat-participation': 2000, 'xproc': 30, 'xproc:agg_rotated': 3},
 }
 EXHAUSTIVE = {'quick': False, 'thorough': False}
 TECHNIQUE = ('runtime monitoring: state sanitizer (deep container + leaf snapshots, deleted-buffer detection) + '
@@ -300,6 +300,64 @@ def gen_case(rng, system, quick):
   return dict(cfg=cfg, dim=dim, sizes=sizes, rounds=rounds, cohorts=cohorts, init_seed=int(rng.randint(0, 2**31 - 1)))
 
 
+
+# ---------------------------------------------- plain replay (also run in a FRESH interpreter, other PYTHONHASHSEED)
+def state_digest(jax, state):
+  import hashlib
+  m = hashlib.sha256()
+  for leaf in jax.tree_util.tree_leaves(state):
+    a = np.asarray(leaf)
+    m.update(str(a.dtype).encode() + str(a.shape).encode() + np.ascontiguousarray(a).tobytes())
+  return m.hexdigest()
+
+
+def plain_history(case, jax, fedjax):
+  """Runs the history of `case` with no monitor attached; returns one state digest per round."""
+  cfg = case['cfg']
+  is_agg = cfg['system'].startswith('agg_')
+  system = AggSystem(cfg) if is_agg else AlgoSystem(cfg)
+  drng = np.random.RandomState(case['init_seed'])
+  w_true = drng.randn(case['dim'])
+  raw, base = {}, 0
+  for i, n in enumerate(case['sizes']):
+    cid = b'c%02d' % i
+    raw[cid] = toy.make_client(drng, n, case['dim'], w_true, idx_base=base)
+    base += n
+  ids = sorted(raw)
+  dsets = algos.make_datasets(raw, cfg.get('num_domains', 2))
+  init = toy.make_params(drng, case['dim'], 'flat' if is_agg or drng.rand() < 0.5 else 'nested')
+  if is_agg:
+    init = {'w': init['w'], 'b': np.reshape(init['b'], (1,))}
+  built, apply = system.build()
+  state = system.init(built, init)
+  out = []
+  for rnd, cohort_idx in enumerate(case['cohorts']):
+    cohort_ids = [ids[i] for i in cohort_idx]
+    keys = jax.random.split(jax.random.PRNGKey(case['init_seed'] % 100003 + 17 * rnd), len(cohort_ids))
+    clients = [(cid, dsets[cid], keys[i]) for i, cid in enumerate(cohort_ids)]
+    state = system.advance(state, apply(state, system.inputs(state, clients)))
+    out.append(state_digest(jax, state))
+  return out
+
+
+def fresh_interpreter_history(case, tmpdir, hashseed):
+  """plain_history(case) in a new Python process with a different PYTHONHASHSEED (nothing but `case` crosses over)."""
+  import subprocess
+  import sys
+  spec, res = os.path.join(tmpdir, 'xproc-case.pkl'), os.path.join(tmpdir, 'xproc-out.pkl')
+  with open(spec, 'wb') as f:
+    pickle.dump(case, f)
+  if os.path.exists(res):
+    os.remove(res)
+  env = dict(os.environ)
+  env['PYTHONHASHSEED'] = str(hashseed)
+  p = subprocess.run([sys.executable, '-m', 'vmon.checks.c10', spec, res], env=env, capture_output=True, text=True, timeout=900,
+                     cwd=os.path.dirname(os.path.dirname(os.path.dirname(os.path.abspath(__file__)))))
+  if p.returncode != 0 or not os.path.exists(res):
+    raise core.HarnessError(f'fresh-interpreter replay failed rc={p.returncode}: {p.stderr[-800:]}')
+  with open(res, 'rb') as f:
+    return pickle.load(f)
+
 # ---------------------------------------------------------------- the monitors
 def run_history(ctx, jax, fedjax, case, tmpdir):
   cfg = case['cfg']
@@ -468,6 +526,17 @@ def run_history(ctx, jax, fedjax, case, tmpdir):
                   f'replaying the last round on a fresh {how} gives different outputs at {d and d[0]}: apply depends on '
                   f'state kept outside its arguments', {**w, 'where': d})
         ctx.count(f'hidden:{sname}')
+  # (6) the whole history replayed in a FRESH interpreter with another PYTHONHASHSEED: outputs may depend on the values
+  #     of (state, clients) only, not on process-global state such as the per-process salt of hash()
+  if case.get('xproc') and rounds_done == len(case['cohorts']):
+    mine = guarded(f'{sname}.plain-replay', plain_history, case, jax, fedjax)
+    if mine.ok:
+      other = fresh_interpreter_history(case, tmpdir, case['xproc'])
+      ctx.check(mine.value == other, f'hidden/{sname}-differs-in-fresh-interpreter',
+                f'the same history run in a new Python process (PYTHONHASHSEED={case["xproc"]}) produced different states from '
+                f'round {next((i for i, (a, b) in enumerate(zip(mine.value, other)) if a != b), None)} on', {**wit, 'mine': mine.value, 'other': other})
+      ctx.count(f'xproc:{sname}')
+      ctx.count('xproc')
   done(rounds_done >= 3 and repeated and all_changed)
 
 
@@ -481,4 +550,21 @@ def run(ctx):
   for cid, (system, j) in ctx.enum('hist', items):
     rng = ctx.rng('hist', system, j)
     case = gen_case(rng, system, ctx.quick)
+    xsys = ('agg_uniform', 'agg_rotated', 'agg_drive', 'agg_terngrad', 'fed_avg', 'hyp_cluster', 'apfl')
+    if (j == 0 and system in xsys) if ctx.quick else (j < 3):
+      case['xproc'] = 1 + (j + len(system)) % 7
     run_history(ctx, jax, fedjax, case, tmpdir)
+
+
+if __name__ == '__main__':
+  # child of fresh_interpreter_history: argv = [case.pkl, out.pkl]
+  import sys as _sys
+  _sys.path.insert(0, os.environ.get('FEDJAX_REPO', '/repo'))
+  import jax as _jax
+  import fedjax as _fedjax
+  from fedjax.algorithms import apfl as _apfl  # noqa: F401
+  with open(_sys.argv[1], 'rb') as _f:
+    _case = pickle.load(_f)
+  _out = plain_history(_case, _jax, _fedjax)
+  with open(_sys.argv[2], 'wb') as _f:
+    pickle.dump(_out, _f)
